@@ -23,11 +23,14 @@ VLEVELS = ["global", "cfg", "set", "task", "stage"]
 def var_jobs():
     jobs = []
     for sub in [s for k in range(1, 6) for s in itertools.combinations(VLEVELS, k)]:
-        for mode, setval in [(m, sv) for m in (["stage"] if "stage" in sub else ["direct", "stage"])
-                             for sv in (("set-val", "set=val=x", "") if "set" in sub else ("set-val",))]:
+        for mode, setval, emptylv in [(m, sv, el) for m in (["stage"] if "stage" in sub else ["direct", "stage"])
+                                      for sv in (("set-val", "set=val=x", "") if "set" in sub else ("set-val",))
+                                      for el in [None] + ([lv for lv in ("task", "stage") if lv in sub] if sv == "set-val" else [])]:
             vals = {lv: "%s-val" % lv for lv in sub}
             if "set" in vals:
                 vals["set"] = setval          # a value may itself contain '=' or be empty
+            if emptylv:
+                vals[emptylv] = ""            # an EMPTY value at the task's or the stage's level is a value: it wins over the levels below
             # the same resolution everywhere a template is rendered: condition, before hook, command, after hook
             task = {"command": ['echo "v={{.v}}" >> "$PROJ/out"'], "before": ['echo "bv={{.v}}" >> "$PROJ/out"'], "after": ['echo "av={{.v}}" >> "$PROJ/out"'],
                     "condition": 'echo "cv={{.v}}" >> "$PROJ/out"'}
@@ -89,7 +92,7 @@ def argv_jobs(ctx, first):
     pick = [("x", "--", "y"), ("x", "--"), ("--",), ("--", "a")] + pick
 
     def cmd(n):
-        return 'echo "%s ARGS=[$ARGS] A=[{{.Args}}] L={{.ArgsList}}" >> "$PROJ/out"' % n
+        return 'echo "%s ARGS=[$ARGS] A=[{{.Args}}] L={{.ArgsList}} N={{len .ArgsList}}" >> "$PROJ/out"' % n
     doc = {"tasks": {"t1": {"command": [cmd("t1")]}, "t2": {"command": [cmd("t2")]}}}
     jobs = []
     for v in pick:
@@ -255,7 +258,7 @@ def run(ctx):
             argv = [I(t) for t in j["targets"]] + [0] + [0 if w == "--" else I(w) for w in j["words"]]
             ran = [I(l.split(" ", 1)[0]) for l in lines]
             want = " ".join(j["words"])
-            seen_ok = all(l.split(" ", 1)[1] == "ARGS=[%s] A=[%s] L=[%s]" % (want, want, want) for l in lines)
+            seen_ok = all(l.split(" ", 1)[1] == "ARGS=[%s] A=[%s] L=[%s] N=%d" % (want, want, want, len(j["words"])) for l in lines)
             # the argument words as observed: if every task printed exactly the expected rendering, they are the words
             argsobs = [0 if w == "--" else I(w) for w in j["words"]] if seen_ok and lines else [99999]
             items.append("(%d%%N, argv_ok %s %s %s && %s)" % (k, vlib.clist(argv), vlib.clist(ran), vlib.clist(argsobs), vlib.cbool(r["rc"] == 0)))
